@@ -110,7 +110,7 @@ theorem readLitGo_ok (src : Buf) (e : Nat) (he : e ≤ src.size) : ∀ fuel s l,
     simp only [readLitGo, hr, bind, Except.bind, pure, Except.pure]
     by_cases hc : src[s]'(by omega) = 0xff ∧ s + 1 ≠ e
     · simp only [hc, ne_eq, not_false_eq_true, and_self, if_true]
-      obtain ⟨s', l', h3, h4, h5⟩ := ih (s + 1) (u32 (l + 255)) (by omega) (by omega)
+      obtain ⟨s', l', h3, h4, h5⟩ := ih (s + 1) (sat32 (l + 255)) (by omega) (by omega)
       exact ⟨s', l', by simpa [hc.1] using h3, by omega, h5⟩
     · simp only [hc, if_false]
       exact ⟨_, _, rfl, by omega, by omega⟩
